@@ -169,6 +169,14 @@ func (m *mutator) mutate(d *D, ctx int, top bool) *D {
 			c.Sub = append(c.Sub, &k, m.mutate(d.Sub[i+1], ctx, false))
 		}
 		return &c
+	case "kmap":
+		// keys of mixed kinds: their relative order is public, so they are shared
+		for i := 0; i+1 < len(d.Sub); i += 2 {
+			c.Sub = append(c.Sub, d.Sub[i], m.mutate(d.Sub[i+1], ctx, false))
+		}
+		return &c
+	case "fmap", "amap":
+		return d // key order of float/array keys: not re-instantiated
 	case "mapIntStr":
 		for i := 0; i+1 < len(d.Sub); i += 2 {
 			k, v := *d.Sub[i], *d.Sub[i+1]
